@@ -23,7 +23,20 @@ Record step := ST {
   st_after : list reread                          (* every updated note, re-read *)
 }.
 
-Record act_obs := AO { ao_first : step; ao_second : option step }.
+(* [ao_hist]: the same request sent to a server that REACHED the library's texts through edits
+   (started on other texts for the same keys, one didChange per note): its own resolved edits and
+   their re-read; the offer recorded in it is the fresh server's (node ids differ between arenas) *)
+Record act_obs := AO { ao_first : step; ao_second : option step; ao_hist : option step }.
+
+(* the observation to evaluate the predicates on for the server with a history; where the new
+   keys are drawn at random (extraction outside sequential-key mode) the two servers draw
+   different keys and the inverse step recorded for the fresh one says nothing about the other *)
+Definition hist_comparable (seq : bool) (a : act_obs) : bool := seq || Nat.leb 3 (st_kind (ao_first a)).
+Definition hist_variants (seq : bool) (a : act_obs) : list act_obs :=
+  match ao_hist a with
+  | Some h => if hist_comparable seq a then [AO h (ao_second a) None] else []
+  | None => []
+  end.
 
 Record line_obs := LO {
   ln_key : string; ln_line : nat;
@@ -151,7 +164,9 @@ Definition lib_env (c : libcase) (g : graph) : tenv :=
    3 first step: the offer at the recorded line
    4 first step: resolved changes (keys and full texts)
    5 second step: model library after didChange gives the same offer
-   6 second step: resolved changes *)
+   6 second step: resolved changes
+   7 a server that reached the same texts through edits resolves the same action to the same edit
+     (keys and full texts; not compared where the new keys are drawn at random) *)
 Definition act_corr (c : actcase) (kinds : list nat) : list N :=
   let lc := ac_lib c in
   match model_graph lc with
@@ -183,7 +198,15 @@ Definition act_corr (c : actcase) (kinds : list nat) : list N :=
                               end
                           end
                         else []) (ac_acts c) in
-      flag 5 (forallb fst seconds) ++ flag 6 (forallb snd seconds)
+      flag 5 (forallb fst seconds) ++ flag 6 (forallb snd seconds) ++
+      flag 7 (forallb (fun a =>
+                match ao_hist a with
+                | Some h =>
+                    if existsb (Nat.eqb (st_kind (ao_first a))) kinds && hist_comparable (ac_seq c) a
+                    then res_eqb (list_eqb och_eqb) (st_changes h) (st_changes (ao_first a))
+                    else true
+                | None => true
+                end) (ac_acts c))
   end.
 
 (* ---------- helpers for the predicates ---------------------------------------------------- *)
